@@ -281,6 +281,17 @@ def generate(repo, outdir_lean, outdir_json, write_if_changed):
                                     f"      Aoe.Props.C05.Diverge p q) : getAt q s1.root = getAt q s2.root :=\n"
                                     f"  (Aoe.Props.Links.edit_lands_only_there {mod}.classes fuel {cid} hist s s1 s2 vals1 vals2 {mod}.c{cid} rfl\n"
                                     f"    plainOnly_{mod}_{cname} pathsDistinct_{mod}_{cname} h1 h2 (fun _ _ => .error .shape)).2 q hq\n")
+        # every manager: construct after commit returns the (normalised) object - the whole class tree under it is `tableSafe`
+        for mid in mids:
+            cname = g.class_defs[mid][0]
+            laws_src.append(f"theorem tableSafe_{mod}_{cname} : Aoe.Props.CommitHolds.tableSafe {mod}.classes 4 {mid} 0 = true := by decide")
+            laws_src.append(f"/-- committing a {cname} (version {v}) and constructing it again from the resulting sections returns the object\n"
+                            f"(index links read from the history, links the version lacks `None`), whatever its values and however many objects it holds -/\n"
+                            f"theorem construct_after_commit_{mod}_{cname} (obj : Val) (s s' : Sections)\n"
+                            f"    (hwf : Aoe.Props.CommitHolds.WF {mod}.classes 4 {mid} [] obj)\n"
+                            f"    (h : commitObj {mod}.classes 4 {mid} [] obj s = .ok s') :\n"
+                            f"    constructObj {mod}.classes 4 {mid} [] s' = .ok (Aoe.Props.CommitHolds.normalize {mod}.classes 4 {mid} [] obj) :=\n"
+                            f"  Aoe.Props.CommitHolds.construct_after_commit {mod}.classes 4 {mid} [] obj s s' tableSafe_{mod}_{cname} hwf h\n")
         # every class: each plain link reads back what was pushed (side conditions by `decide`); depth = number of index steps
         for cid, (cname, links) in enumerate(g.class_defs):
             depth = max([m2.group(1).count(".hidx") for l2 in links for m2 in [re.search(r"\.(?:plain|objs) \[([^\]]*)\]", l2)] if m2] + [0])
@@ -351,7 +362,7 @@ def generate(repo, outdir_lean, outdir_json, write_if_changed):
     agg += "\n".join(f"  {'if' if i == 0 else 'else if'} v == \"{v}\" then some ({m}.classes, {m}.managers, {m}.secNames)" for i, (v, m) in enumerate(mods))
     agg += "\n  else none\nend Aoe.Generated\n"
     fn = os.path.join(outdir_lean, "MgrTables.lean"); write_if_changed(fn, agg); files.append(fn)
-    laws = ("import Aoe.Props.Links\nimport Aoe.Props.CommitFrame\nimport Aoe.Generated.MgrTables\n/-! GENERATED by tools/gen_mgr.py – `commit ∘ construct = id` instantiated at every generated class "
+    laws = ("import Aoe.Props.Links\nimport Aoe.Props.CommitFrame\nimport Aoe.Props.CommitHolds\nimport Aoe.Generated.MgrTables\n/-! GENERATED by tools/gen_mgr.py – `commit ∘ construct = id` instantiated at every generated class "
             "whose links are plain value links without refresh actions (side condition closed by `decide`). -/\n"
             "namespace Aoe.Generated.MgrLaws\nopen Aoe Aoe.Codec Aoe.Lens Aoe.Commit Aoe.Generated\n\n" + "\n".join(laws_src) + "\nend Aoe.Generated.MgrLaws\n")
     fn = os.path.join(outdir_lean, "MgrLaws.lean"); write_if_changed(fn, laws); files.append(fn)
